@@ -4,7 +4,7 @@
 # (2) the demonstration fails with the change and passes without, (3) runs ./check <ID> quick
 # (and thorough when quick stays silent) against the changed tree. Prints a JSON summary.
 id="$1"; k="$2"; pkg="$3"; shift 3
-out=${SEED_OUT:-/tmp/seed/out}/$id
+out=${SEED_OUT:-/tmp/seed/out}/$id; cid=${CHECK_ID:-$id}
 export GOFLAGS=-mod=mod GOPROXY=off GOSUMDB=off GOTOOLCHAIN=local
 scratch=$(mktemp -d /tmp/seedchk.XXXXXX)
 rsync -a --exclude .git /repo/ "$scratch/"
@@ -16,9 +16,9 @@ cp "$out/demo${k}_test.go" "$demo"
 rm -f "$demo"
 ( cd "$scratch" && go build ./... && go test -vet=off -count=1 ./... >"$scratch/suite.log" 2>&1 ); suite=$?
 cd /verif
-VERIF_REPO="$scratch" VERIF_EVIDENCE_DIR="$scratch/evidence" ./check "$id" quick >"$scratch/check_quick.log" 2>&1; q=$?
+VERIF_REPO="$scratch" VERIF_EVIDENCE_DIR="$scratch/evidence" ./check "$cid" quick >"$scratch/check_quick.log" 2>&1; q=$?
 t=-1
-if [ $q -ne 1 ]; then VERIF_REPO="$scratch" VERIF_EVIDENCE_DIR="$scratch/evidence" ./check "$id" thorough >"$scratch/check_thorough.log" 2>&1; t=$?; fi
+if [ $q -ne 1 ]; then VERIF_REPO="$scratch" VERIF_EVIDENCE_DIR="$scratch/evidence" ./check "$cid" thorough >"$scratch/check_thorough.log" 2>&1; t=$?; fi
 first=$(grep -a -m1 -A1 "VIOLATION" "$scratch/check_quick.log" "$scratch/check_thorough.log" 2>/dev/null | tail -1 | cut -c1-300 | tr '"' "'" )
 echo "{\"id\":\"$id\",\"k\":$k,\"demo_on_clean_exit\":$clean,\"demo_on_mutant_exit\":$mut,\"suite_on_mutant_exit\":$suite,\"check_quick_exit\":$q,\"check_thorough_exit\":$t,\"first_violation\":\"$first\"}"
 mkdir -p /tmp/seed/logs/$id-$k && cp "$scratch"/*.log /tmp/seed/logs/$id-$k/ 2>/dev/null
